@@ -4469,6 +4469,8 @@ def guarded_section(name, thunk):
         SKIPPED_SECTIONS.append((name, str(ex)))
         if name == "schedule":
             SCHED_EXPORT.clear()
+        if name == "eval":
+            EVAL_EXPORT.clear()
         return [f"-- [{name}] NOT TRANSLATED in this run: {str(ex).replace(chr(10), ' ')}", ""]
 
 
@@ -4874,6 +4876,8 @@ def translate(repo, overrides):
     L += guarded_section("dated2", lambda: dated2_section(toks))  # [dated2 extension] fifth increment: the interval consumers of date_filter.rs
     L += guarded_section("dated3", lambda: dated3_section(toks))  # [dated3 extension] sixth increment: single_interval_from_bounds, the `Date` arms of MonthdayRange, intervals_from_bounds
     L += guarded_section("eval", lambda: eval_section(toks, lambda rel: raw_of[rel]))  # [eval extension] fifth increment: opening_hours.rs
+    L += guarded_section("eval2", lambda: eval2_section(toks, lambda rel: raw_of[rel]))  # [eval2 extension] sixth increment: next_change_hint
+    L += guarded_section("eval2-day", lambda: eval2_day_section(toks, lambda rel: raw_of[rel]))  # [eval2 extension] DaySelector::filter / next_change_hint
     toks.raw = lambda rel: (toks(rel), raw_of[rel])[1]  # [tz extension]
     L += guarded_section("tz", lambda: tz_section(toks, lambda rel: raw_of[rel]))  # [tz extension] fifth increment: localization/localize.rs
     L += guarded_section("tz-pipe", lambda: tz_pipe_section(toks))  # [tz extension] the localisation pipeline of opening_hours.rs
@@ -8035,8 +8039,598 @@ def eval_section(toks, raw):
         L += g.gen() + [""]
         esigs[(impl_ty, rname)] = dict(has_self=node.has_self, mut_self=node.mut_self, params=[pt for _, pt, _ in node.params], ret=node.ret,
                                        externs=dict(g.externs), fuel=g.fuel)
+    EVAL_EXPORT.update(fields=fields, esigs=esigs, local_consts=local_consts)  # [eval2 extension] hook
     L += ["end Eval", ""]
     return L
+
+
+# [eval2 extension] sixth increment: `OpeningHours::next_change_hint` of opening-hours/src/opening_hours.rs
+# (notes/RS2LEAN6-eval2.md).  New constructs: `<` / `<=` / `>` / `>=` on dates; `a || b` / `a && b` whose right operand CALLS
+# things (a closed `if`: the right operand runs only when Rust runs it); `let f = || { .. };` — a closure without parameters
+# that is only CALLED (`f()`): the call is the body, evaluated as a closed sub-computation in the environment of the
+# definition (every name it mentions must still denote the same variable at the call); `opt.is_some_and(|x| ..)` with a
+# closure that calls things; `vec.iter().map(|x| { .. }).min().flatten()` for `Item = Option<NaiveDate>`: the `map` is an
+# auxiliary structural recursion over the vector (the closure runs on the elements in order, `min` consumes them all, so
+# the first panic is the outcome), `min` is `iterMinOptDate` of OH/Model/RustSeq.lean (std's `Iterator::min`: a `reduce`
+# keeping the accumulator unless it is `Greater`; `None < Some(_)`), `flatten` is `Option.join`.  Untranslated callees are
+# NAMED, EFFECTFUL parameters as before: `ext_expr_is_constant`, `ext_time_selector_is_immutable_full_day`,
+# `ext_day_selector_next_change_hint` (and `ext_day_selector_filter` of the previous increment).
+# (file, impl header, Rust name); the functions of rules/mod.rs come first: `next_change_hint` CALLS the translated
+# `OpeningHoursExpression::is_constant` (linked); if they cannot be translated they stay a named parameter (`ext_expr_is_constant`)
+EVAL2_TARGETS = [
+    (F_RULES, ["impl", "RuleSequence"], "is_constant"),
+    (F_RULES, ["impl", "OpeningHoursExpression"], "is_constant"),
+    (F_OH, ["impl", "<", "L", ":", "Localize", ">", "OpeningHours", "<", "L", ">"], "next_change_hint"),
+]
+# (receiver kind or struct name, method) -> (parameter name, (module, trait) to be imported or None for an inherent method, parameter types, result)
+EVAL2_METHOD_HOLES = {
+    ("adaysel", "next_change_hint"): ("ext_day_selector_next_change_hint", ("crate::filter::date_filter", "DateFilter"), [E_DATE, E_CTX], T("opt", E_DATE)),
+    ("atimesel", "is_immutable_full_day"): ("ext_time_selector_is_immutable_full_day", None, [], BOOL),
+    ("OpeningHoursExpression", "is_constant"): ("ext_expr_is_constant", None, [], BOOL),
+    ("adaysel", "is_empty"): ("ext_day_selector_is_empty", None, [], BOOL),
+    ("atimesel", "is_00_24"): ("ext_time_selector_is_00_24", None, [], BOOL),
+}
+SCHED_EXT_DOC.update({
+    "ext_day_selector_next_change_hint": "the untranslated `DaySelector::next_change_hint(&self, date, ctx)` (`DateFilter`), effectful",
+    "ext_time_selector_is_immutable_full_day": "the untranslated `TimeSelector::is_immutable_full_day(&self)`",
+    "ext_expr_is_constant": "the untranslated `OpeningHoursExpression::is_constant(&self)`",
+    "ext_day_selector_is_empty": "the untranslated `DaySelector::is_empty(&self)` (rules/day.rs)",
+    "ext_time_selector_is_00_24": "the untranslated `TimeSelector::is_00_24(&self)` (rules/time.rs)",
+})
+EVAL_EXPORT = {}  # filled by `eval_section`: the struct fields / signatures of the evaluator section
+EVAL2_RESERVED = r"tmp\d+|ext_\w+|fuel|self|it_rest"
+
+
+class Eval2Parser(EvalParser):
+    """`EvalParser` plus `let Some(x) = e else { .. return v; };` (as in the dated2 front end: a `match` whose `Some` arm is
+    the rest of the block)"""
+
+    def seq_let(self):
+        if self.peek(1).text == "Some" and self.peek(2).text == "(":
+            line = self.eat("let").line
+            name, by_ref, _ = self.some_pattern()
+            if by_ref:
+                fail(f"{self.f}:{line}", "`ref` in a `let .. else` pattern is outside the translated subset")
+            self.eat("=")
+            e = self.expr(nostruct=True)
+            if not self.at("else"):
+                fail(self.where(), "`let Some(..) = e;` without `else` is outside the translated subset")
+            self.i += 1
+            els = self.block()
+            self.eat(";")
+            if not els.stmts or els.stmts[-1].kind != "ret" or els.tail is not None:
+                fail(f"{self.f}:{els.line}", "the `else` block of `let .. else` has to end with `return ..;`")
+            return Node("letsomeelse", line, name=name, e=e, els=els)
+        return EvalParser.seq_let(self)
+
+    def block(self):
+        b = EvalParser.block(self)
+        for i, s_ in enumerate(b.stmts):
+            if s_.kind == "letsomeelse":
+                rest = Node("block", s_.line, stmts=b.stmts[i + 1:], tail=b.tail)
+                rest = self.letelse_rewrite(rest)
+                m = Node("matchopt", s_.line, scrut=s_.e, arms=[("none", None, s_.els), ("some", s_.name, rest)])
+                return Node("block", b.line, stmts=b.stmts[:i], tail=m)
+        return b
+
+    def letelse_rewrite(self, b):
+        for i, s_ in enumerate(b.stmts):
+            if s_.kind == "letsomeelse":
+                rest = self.letelse_rewrite(Node("block", s_.line, stmts=b.stmts[i + 1:], tail=b.tail))
+                m = Node("matchopt", s_.line, scrut=s_.e, arms=[("none", None, s_.els), ("some", s_.name, rest)])
+                return Node("block", b.line, stmts=b.stmts[:i], tail=m)
+        return b
+
+
+class Eval2Gen(EvalGen):
+    def __init__(self, *a):
+        EvalGen.__init__(self, *a)
+        self.closures0 = {}
+        self.nmap = 0
+
+    def snapshot(self):
+        return (self.n, self.effects, dict(self.externs), len(self.aux), self.fuel, self.nloop, self.nblk, self.nmap)
+
+    def restore(self, b):
+        self.n, self.effects, self.externs, self.fuel, self.nloop, self.nblk, self.nmap = b[0], b[1], b[2], b[4], b[5], b[6], b[7]
+        del self.aux[b[3]:]
+
+    def closed_value(self, body, env, w):
+        """the lines of `body` (a block) as a closed sub-computation ending in `.ok v`, and the type of `v`"""
+        box = []
+
+        def fin(term, ty, en):
+            box.append(seq_unref(ty))
+            return [f".ok {atom(term)}"]
+        lines = self.block(body, env, SchedFrame("closed"), fin)
+        if not box or any(t is None or t[0] == "unit" for t in box):
+            fail(w, "the type of the closure's value is not determined")
+        if any(not seq_same(t, box[0]) for t in box):
+            fail(w, f"the branches of the closure have different types: {', '.join(seq_show(t) for t in box)}")
+        return lines, box[0]
+
+    def cg(self, e, env, frame, k):
+        if e.kind == "closure" and not e.params:
+            # `let f = || { .. };`: nothing is evaluated here; `f()` is the body (see `call`)
+            used = set()
+            seq_idents(e.body, used)
+            if self.has_self(e.body):
+                used.add("self")
+            for n in used:
+                if n in env and env[n].mut:
+                    fail(self.w(e), f"a closure capturing the `mut` variable `{n}` is outside the translated subset")
+            cid = len(self.closures0)
+            self.closures0[cid] = (e, dict(env), used)
+            return k("⟦CLOSURE0⟧", T("closure0", cid), env)
+        return EvalGen.cg(self, e, env, frame, k)
+
+    def call(self, e, env, frame, k):
+        path = e.path
+        if len(path) == 1 and path[0] in env and env[path[0]].ty is not None and env[path[0]].ty[0] == "closure0":
+            w = self.w(e)
+            if e.args:
+                fail(w, f"`{path[0]}` is a closure without parameters")
+            c, denv, used = self.closures0[env[path[0]].ty[1]]
+            for n in used:
+                if n in denv and env.get(n) is not denv[n]:
+                    fail(w, f"`{n}` does not denote the same variable here as where the closure `{path[0]}` is defined")
+            lines, ty = self.closed_value(c.body, denv, w)
+            return self.closed(lines, k, ty, env)
+        return EvalGen.call(self, e, env, frame, k)
+
+    def binop(self, e, env, frame, k):
+        op, w = e.op, self.w(e)
+        if op in ("&&", "||"):
+            def lhs(a, ta, en):
+                if seq_unref(ta) != BOOL:
+                    fail(w, f"`{op}` on non-bool operands")
+                snap = self.snapshot()
+                lines, tb = self.closed_value(Node("block", e.r.line, stmts=[], tail=e.r), en, w)
+                if tb != BOOL:
+                    fail(w, f"`{op}` on non-bool operands")
+                if self.effects == snap[1]:
+                    self.restore(snap)
+                    return None
+                short = ".ok true" if op == "||" else ".ok false"
+                head = f"if {a} then" if op == "||" else f"if !{atom(a)} then"
+                return self.closed([f"{head} {short}", "else ("] + ["  " + x for x in lines] + ["  )"], k, BOOL, en)
+            marker = []
+
+            def lhs_any(a, ta, en):
+                r = lhs(a, ta, en)
+                if r is None:
+                    marker.append(1)
+                    return []
+                return r
+            snap0 = self.snapshot()
+            r = self.cg(e.l, env, frame, lhs_any)
+            if marker:
+                self.restore(snap0)
+                return EvalGen.binop(self, e, env, frame, k)
+            return r
+        if op in ("<", "<=", ">", ">=", "==", "!="):
+            def lhs2(a, ta, en):
+                if seq_unref(ta) != (E_DATE if op not in ("==", "!=") else E_OP):
+                    return None
+                want = seq_unref(ta)
+                lop = {"<=": "≤", ">=": "≥", "==": "=", "!=": "≠"}.get(op, op)
+                return self.cg(e.r, en, frame, lambda b, tb, en2: k(f"decide ({atom(a)} {lop} {atom(b)})", BOOL, en2)
+                               if seq_unref(tb) == want else fail(w, f"`{op}` on {seq_show(ta)} and {seq_show(tb)}"))
+            marker = []
+
+            def lhs2_any(a, ta, en):
+                r = lhs2(a, ta, en)
+                if r is None:
+                    marker.append(1)
+                    return []
+                return r
+            snap0 = self.snapshot()
+            r = self.cg(e.l, env, frame, lhs2_any)
+            if marker:
+                self.restore(snap0)
+                return EvalGen.binop(self, e, env, frame, k)
+            return r
+        return EvalGen.binop(self, e, env, frame, k)
+
+    def closure1(self, c, env, w):
+        """the parameter name of a closure with one plain parameter"""
+        if c.kind != "closure" or len(c.params) != 1:
+            fail(w, "a closure with one parameter is expected")
+        pn = c.params[0][0] if isinstance(c.params[0], (tuple, list)) else c.params[0]
+        if isinstance(c.params[0], (tuple, list)) and c.params[0][1]:
+            fail(w, "a closure with one plain parameter is expected")
+        if re.fullmatch(EVAL2_RESERVED, pn) or pn in env:
+            fail(w, f"closure parameter `{pn}` clashes with / shadows another name")
+        return pn
+
+    def iter_aux(self, what, c, src, env, frame, k):
+        """`src.iter().map(c)` consumed entirely (`what` = "map": the list of the closure's values) or `src.iter().any(c)`
+        (`what` = "any"): an auxiliary structural recursion over the vector"""
+        w = self.w(c)
+        pn = self.closure1(c, env, w)
+        if frame.kind not in ("fn", "closed"):
+            fail(w, "an iterator chain inside a loop is outside the translated subset")
+
+        def on_src(t, ty, en):
+            ty = seq_unref(ty)
+            if ty is None or ty[0] != "list":
+                fail(w, f"`.iter()` on {seq_show(ty)} is outside the translated subset (a `Vec<T>` / slice only)")
+            elem = ty[1]
+            used = set()
+            seq_idents(c.body, used)
+            if self.has_self(c.body):
+                used.add("self")
+            for n in used:
+                if n in en and en[n].mut:
+                    fail(w, f"a closure capturing the `mut` variable `{n}` is outside the translated subset")
+            fixed = [n for n in en if n in used and en[n].ty is not None and en[n].ty[0] != "closure0"]
+            self.nmap += 1
+            fname = f"{self.lean_name}.{what}{self.nmap}"
+            env_b = {n: en[n] for n in fixed}
+            env_b[pn] = SchedVar(elem, False, -1)
+            lines, vt = self.closed_value(c.body, env_b, w)
+            if what in ("any", "find") and vt != BOOL:
+                fail(w, f"the closure of `.{what}()` does not return a bool")
+            ps = [f"({lname(n)} : {seq_lty(seq_unref(en[n].ty))})" for n in fixed]
+            rt = "Bool" if what == "any" else f"(Option {seq_lty(elem, False)})" if what == "find" else f"(List {seq_lty(vt, False)})"
+
+            def emit():
+                ex = [f"({n} : {t_})" for n, t_ in sorted(self.externs.items())]
+                fl = ["(fuel : Nat)"] if self.fuel else []
+                again = f"{fname}⟦EXT⟧ " + " ".join([lname(n) for n in fixed] + (["fuel"] if self.fuel else []) + ["it_rest"])
+                if what == "map":
+                    doc = (f"/-- the adaptor `.map(|{pn}| ..)` of `{self.node.name}` ({w}), consumed entirely by `.min()`: the closure runs on the elements "
+                           "of the vector in order (structural recursion over what is left, `it_rest`); a panic of the closure is the outcome -/")
+                    step = ["      ) fun hd =>", f"    bnd ({again}) fun tl =>", "    .ok (hd :: tl)"]
+                elif what == "find":
+                    doc = (f"/-- `.iter().rev().find(|{pn}| ..)` of `{self.node.name}` ({w}) on the REVERSED vector: the closure runs on the elements in that order "
+                           "until it returns `true`, that element is the result (structural recursion over what is left, `it_rest`) -/")
+                    step = ["      ) fun hd =>", f"    if hd then .ok (some {lname(pn)}) else {again}"]
+                else:
+                    doc = (f"/-- `.iter().any(|{pn}| ..)` of `{self.node.name}` ({w}): the closure runs on the elements in order until it returns `true` "
+                           "(structural recursion over what is left, `it_rest`); a panic of the closure is the outcome -/")
+                    step = ["      ) fun hd =>", f"    if hd then .ok true else {again}"]
+                return [doc, f"def {fname} {EVAL_BINDER} {' '.join(ps + fl + ['(it_rest : List ' + seq_lty(elem, False) + ')'] + ex)} : R {rt} :=",
+                        "  match it_rest with", "  | [] => .ok " + {"map": "[]", "any": "false", "find": "none"}[what], f"  | {lname(pn)} :: it_rest =>", "    bnd ("] + [
+                        "      " + x for x in lines] + step
+            self.aux.append(emit)
+            self.effects += 1
+            v = self.fresh()
+            first = f"{fname}⟦EXT⟧ " + " ".join([lname(n) for n in fixed] + ["⟦FUEL⟧", atom(t)])
+            return [f"bnd ({first}) fun {v} =>"] + k(v, BOOL if what == "any" else T("opt", elem) if what == "find" else T("list", vt), en)
+        return self.cg(src, env, frame, on_src)
+
+    def gen(self):  # noqa: F811
+        lines = EvalGen.gen(self)
+        return [x.replace(" ⟦FUEL⟧", " fuel" if self.fuel else "") for x in lines if "⟦CLOSURE0⟧" not in x]
+
+    def method(self, e, env, frame, k):
+        w, name, recv = self.w(e), e.name, e.e
+        while recv.kind == "paren":
+            recv = recv.e
+        if recv.kind == "var" and recv.name in ("DATE_START", "DATE_END") and recv.name not in env:
+            return EvalGen.method(self, e, env, frame, k)
+
+        def is_m(x, nm, nargs):
+            return x.kind == "method" and x.name == nm and len(x.args) == nargs
+        OD = T("opt", E_DATE)
+        if name == "min" and not e.args and is_m(recv, "map", 1) and is_m(recv.e, "iter", 0):
+            return self.iter_aux("map", recv.args[0], recv.e.e, env, frame, lambda v, ty, en: k(f"iterMinOptDate {v}", T("opt", OD), en)
+                                 if ty == T("list", OD) else fail(w, f"`.min()` of an iterator of {seq_show(ty[1])} is outside the translated subset (`Option<NaiveDate>` only)"))
+        if name == "min" and not e.args and is_m(recv, "iter", 0):
+            return self.cg(recv.e, env, frame, lambda t, ty, en: k(f"iterMinOptDate {atom(t)}", T("opt", OD), en)
+                           if seq_unref(ty) == T("list", OD) else fail(w, f"`.iter().min()` on {seq_show(ty)} is outside the translated subset (`[Option<NaiveDate>; n]` only)"))
+        if name == "any" and len(e.args) == 1 and is_m(recv, "iter", 0):
+            return self.iter_aux("any", e.args[0], recv.e, env, frame, k)
+        if name == "find" and len(e.args) == 1 and is_m(recv, "rev", 0) and is_m(recv.e, "iter", 0):
+            return self.iter_aux("find", e.args[0], Node("method", recv.line, e=recv.e.e, name="⟦reverse⟧", args=[]), env, frame, k)
+        if name == "⟦reverse⟧":
+            return self.cg(recv, env, frame, lambda t, ty, en: k(f"List.reverse {atom(t)}", seq_unref(ty), en)
+                           if seq_unref(ty) is not None and seq_unref(ty)[0] == "list" else fail(w, f"`.iter().rev()` on {seq_show(ty)}"))
+
+        def on(t, ty, en):
+            ty0 = seq_unref(ty)
+            k0 = ty0[0] if ty0 else None
+            key = (ty0[1] if k0 == "est" else k0, name)
+            if k0 == "est" and key in self.esigs and self.esigs[key]["has_self"] and not self.esigs[key]["mut_self"]:
+                # a translated `&self` method of the evaluator structs: a CALL (linked)
+                sig = self.esigs[key]
+                if e.args or sig["params"]:
+                    fail(w, f"`{key[0]}::{name}` with parameters is outside the translated subset")
+                for n_, t_ in sig["externs"].items():
+                    self.ext(n_, t_)
+                if sig["fuel"]:
+                    self.fuel = True
+                if key == (self.impl_ty, self.node.name):
+                    fail(w, "a recursive method is outside the translated subset")
+                v = self.fresh()
+                self.effects += 1
+                return [f"bnd ({key[0]}.{name}{self.ext_args(sig['externs'])} {atom(t)}" + (" fuel" if sig["fuel"] else "") + f") fun {v} =>"] + k(v, sig["ret"], en)
+            if key in EVAL2_METHOD_HOLES:
+                pname, imp, ptys, rty = EVAL2_METHOD_HOLES[key]
+                if imp is not None and not self.imported(*imp):
+                    fail(w, f"`{imp[1]}` is not imported from `{imp[0]}`")
+
+                def got(a, en2):
+                    if len(a) != len(ptys) or not all(seq_same(ty_, pt) for (_, ty_), pt in zip(a, ptys)):
+                        fail(w, f"the arguments of `.{name}()` are not ({', '.join(seq_show(x) for x in ptys)})")
+                    return self.hole(pname, [ty0] + ptys, rty, [(t, ty0)] + a, e, k, en2)
+                return self.args(e.args, en, frame, got)
+            if k0 == "opt" and ty0[1] is not None and ty0[1][0] == "opt" and name == "flatten" and not e.args:
+                return k(f"Option.join {atom(t)}", ty0[1], en)
+            if k0 == "opt" and ty0[1] is not None and name == "unwrap_or_else" and len(e.args) == 1 and e.args[0].kind == "closure" and not e.args[0].params:
+                snap = self.snapshot()
+                lines, tv = self.closed_value(e.args[0].body, en, w)
+                if self.effects != snap[1] or len(lines) != 1 or not lines[0].startswith(".ok "):
+                    fail(w, "the closure of `.unwrap_or_else()` has to be a pure expression")
+                if not seq_same(tv, ty0[1]):
+                    fail(w, f"`.unwrap_or_else(..)`: {seq_show(ty0[1])} vs {seq_show(tv)}")
+                return k(f"Option.getD {atom(t)} {lines[0][4:]}", ty0[1], en)
+            if k0 == "opt" and ty0[1] is not None and name == "is_some_and":
+                if len(e.args) != 1:
+                    fail(w, "`.is_some_and(..)` needs a closure with one parameter")
+                c = e.args[0]
+                pn = self.closure1(c, en, w)
+                env2 = dict(en)
+                env2[pn] = SchedVar(ty0[1], False, -1)
+                lines, tb = self.closed_value(c.body, env2, w)
+                if tb != BOOL:
+                    fail(w, "the closure of `.is_some_and()` does not return a bool")
+                return self.closed([f"match {t} with", "| none => .ok false", f"| some {lname(pn)} => ("] + ["  " + x for x in lines] + ["  )"], k, BOOL, en)
+            return self.on_more(e, t, ty0, en, frame, k)
+        marker = []
+
+        def on_any(t, ty, en):
+            r2 = on(t, ty, en)
+            if r2 is None:
+                marker.append(1)
+                return []
+            return r2
+        snap = self.snapshot()
+        r = self.cg(recv, env, frame, on_any)
+        if marker:
+            self.restore(snap)
+            return EvalGen.method(self, e, env, frame, k)
+        return r
+
+    def on_more(self, e, t, ty0, en, frame, k):
+        return None
+
+
+def eval2_section(toks, raw):
+    """the Lean text (lines) of the EVAL2_TARGETS"""
+    if not SCHED_EXPORT or not EVAL_EXPORT:
+        fail(F_OH, "the schedule and evaluator sections have to be generated first")
+    sigs, fields = SCHED_EXPORT["sigs"], EVAL_EXPORT["fields"]
+    local_consts = EVAL_EXPORT["local_consts"]
+    structs = set(SCHED_STRUCTS) | set(SCHED_ABSTRACT) | {"UniqueSortedVec", "RuleOperator"} | {n for _, n in EVAL_STRUCTS}
+    L = ["/-! ### [eval2 extension] rules/mod.rs (`is_constant`), opening-hours/src/opening_hours.rs (`next_change_hint`) -/", "", "namespace Eval", "open Sched", ""]
+    esigs = dict(EVAL_EXPORT["esigs"])
+    for rel, header, rname in EVAL2_TARGETS:
+        toks(rel)
+        tk = eval_drop_cfg_test(raw(rel))
+        impl_ty = header[6] if len(header) > 2 else header[1]
+
+        def one():
+            where = find_impl_fns(tk, rel, impl_ty, None, [rname], header=header)
+            p = Eval2Parser(tk, rel, structs, uses=std_uses(tk))
+            p.self_t = E_ST(impl_ty) if impl_ty else None
+            p.item_t = None
+            p.i = where[rname]
+            node = p.seq_fn()
+            uses = file_uses(tk) | ({("opening_hours_syntax::rules", n) for n in ("RuleKind", "RuleOperator")} if rel == F_RULES else set())
+            g = Eval2Gen(rel, impl_ty, node, p.self_t, fields, sigs, uses, {}, esigs, local_consts)
+            out = g.gen() + [""]
+            esigs[(impl_ty, rname)] = dict(has_self=node.has_self, mut_self=node.mut_self, params=[pt for _, pt, _ in node.params], ret=node.ret,
+                                           externs=dict(g.externs), fuel=g.fuel)
+            return out
+        if rel == F_RULES:
+            # optional: without it `next_change_hint` keeps the named parameter `ext_expr_is_constant` (and its theorems say so by failing)
+            L += guarded_section(f"eval2/{impl_ty}::{rname}", one)
+        else:
+            L += one()
+    L += ["end Eval", ""]
+    return L
+
+
+# [eval2 extension], second part: `impl<T: DateFilter> DateFilter for [T]` and `impl DateFilter for ds::DaySelector` of
+# opening-hours/src/filter/date_filter.rs, `DaySelector::is_empty` of opening-hours-syntax/src/rules/day.rs.  The slice impl
+# is translated ONCE, generic in the element type `T` (the element's `filter` / `next_change_hint` is the named, effectful
+# parameter `ext_elem_filter` / `ext_elem_next_change_hint`); `self.year.filter(date, ctx)` on a `Vec<YearRange>` field is a
+# CALL of that definition with `ext_elem_filter := ext_year_range_filter` (one named parameter per element type), so
+# `DaySelector::filter / next_change_hint` are linked to the translated slice functions.  `YearRange`, `MonthdayRange`,
+# `WeekRange`, `WeekDayRange` are abstract (type parameters `Yr Md Wk Wd`); `struct DaySelector` is read from its declaration.
+# New constructs: `.iter().any(|x| ..)` with a calling closure (short-circuit recursion), `[a, b, c, d]` (array literal:
+# the elements are evaluated left to right), `.iter().min()` on it, `.unwrap_or_else(|| pure value)`, `fn f<L>(..) where L: Localize`.
+F_DF, F_DAY = "opening-hours/src/filter/date_filter.rs", "opening-hours-syntax/src/rules/day.rs"
+E2_ELEM = T("aelem")
+E2_ABS = {"aelem": ("T", "T", "elem"), "ayr": ("Yr", "YearRange", "year_range"), "amd": ("Md", "MonthdayRange", "monthday_range"),
+          "awk": ("Wk", "WeekRange", "week_range"), "awd": ("Wd", "WeekDayRange", "weekday_range")}
+E2_DAYSEL = T("est2", "DaySelector")
+E2_DAY_TPARAMS = "Yr Md Wk Wd"
+E2_SLICE_BINDER, E2_DAY_BINDER = "{T Ctx : Type}", "{Yr Md Wk Wd Ctx : Type}"
+E2_SLICE_HEADER = ["impl", "<", "T", ":", "DateFilter", ">", "DateFilter", "for", "[", "T", "]"]
+E2_DAY_HEADER = ["impl", "DateFilter", "for", "ds", "::", "DaySelector"]
+EVAL2_METHOD_HOLES.update({
+    ("aelem", "filter"): ("ext_elem_filter", None, [E_DATE, E_CTX], BOOL),
+    ("aelem", "next_change_hint"): ("ext_elem_next_change_hint", None, [E_DATE, E_CTX], T("opt", E_DATE)),
+})
+SCHED_EXT_DOC.update({
+    "ext_elem_filter": "`T::filter(&self, date, ctx)` of the element type (`T: DateFilter`), effectful",
+    "ext_elem_next_change_hint": "`T::next_change_hint(&self, date, ctx)` of the element type (`T: DateFilter`), effectful",
+})
+for _k, (_l, _r, _n) in list(E2_ABS.items())[1:]:
+    SCHED_EXT_DOC[f"ext_{_n}_filter"] = f"the `DateFilter::filter` of `{_r}` (passed on to the translated slice impl), effectful"
+    SCHED_EXT_DOC[f"ext_{_n}_next_change_hint"] = f"the `DateFilter::next_change_hint` of `{_r}` (passed on to the translated slice impl), effectful"
+
+_seq_lty_before_eval2, _seq_show_before_eval2 = seq_lty, seq_show
+
+
+def seq_lty(t, top=True):  # noqa: F811  [eval2 extension]
+    if t[0] in E2_ABS:
+        return E2_ABS[t[0]][0]
+    if t[0] == "est2":
+        s = f"{t[1]} {E2_DAY_TPARAMS}"
+        return s if top else f"({s})"
+    return _seq_lty_before_eval2(t, top)
+
+
+def seq_show(t):  # noqa: F811  [eval2 extension]
+    if t is not None and t[0] in E2_ABS:
+        return E2_ABS[t[0]][1]
+    if t is not None and t[0] == "est2":
+        return t[1]
+    return _seq_show_before_eval2(t)
+
+
+class Eval2DayParser(EvalParser):
+    def type_(self):
+        tk = self.peek()
+        if tk.text == "ds" and self.peek(1).text == "::":
+            self.i += 2
+            tk = self.peek()
+        for kk, (_, rname, _) in E2_ABS.items():
+            if kk != "aelem" and tk.text == rname:
+                self.i += 1
+                return T(kk)
+        if tk.text == "DaySelector":
+            self.i += 1
+            return E2_DAYSEL
+        return EvalParser.type_(self)
+
+    def seq_fn(self):
+        # `fn NAME<L>(..) -> T where L: Localize, {`: the parameter only occurs in `Context<L>`, which is abstract
+        if [self.peek(k).text for k in range(2, 5)] == ["<", "L", ">"]:
+            self.t = self.t[: self.i + 2] + self.t[self.i + 5 :]
+            j = self.i
+            while self.t[j].text not in ("{", "where") or self.t[j].kind == "eof":
+                if self.t[j].kind == "eof":
+                    fail(self.where(), "function without a body")
+                j += 1
+            if self.t[j].text == "where":
+                got = [x.text for x in self.t[j : j + 5]]
+                if got[:4] != ["where", "L", ":", "Localize"] or got[4] not in (",", "{"):
+                    fail(f"{self.f}:{self.t[j].line}", "a `where` clause other than `where L: Localize` is outside the translated subset")
+                self.t = self.t[:j] + self.t[j + (5 if got[4] == "," else 4) :]
+        return EvalParser.seq_fn(self)
+
+    def primary(self, nostruct):
+        tk = self.peek()
+        if tk.kind == "op" and tk.text == "[":
+            self.i += 1
+            items = []
+            while not self.at("]"):
+                items.append(self.expr())
+                if self.at(";"):
+                    fail(self.where(), "`[v; n]` is outside the translated subset")
+                if not self.at("]"):
+                    self.eat(",")
+            self.eat("]")
+            if not items:
+                fail(self.where(tk), "an empty array literal is outside the translated subset")
+            return Node("array", tk.line, items=items)
+        return EvalParser.primary(self, nostruct)
+
+
+class Eval2DayGen(Eval2Gen):
+    def __init__(self, binder, dsigs, *a):
+        Eval2Gen.__init__(self, *a)
+        self.binder, self.dsigs = binder, dsigs
+
+    def gen(self):
+        return [x.replace(EVAL_BINDER, self.binder) for x in Eval2Gen.gen(self)]
+
+    def field_ty(self, ty, name, node):
+        t = seq_unref(ty)
+        if t is not None and t[0] == "est2":
+            for fn, ft in self.fields[t[1]]:
+                if fn == name:
+                    return ft
+            fail(self.w(node), f"`{t[1]}` has no field `{name}`")
+        return Eval2Gen.field_ty(self, ty, name, node)
+
+    def cg(self, e, env, frame, k):
+        if e.kind == "array":
+            def got(a, en):
+                tys = [seq_unref(ty) for _, ty in a]
+                if any(ty is None or not seq_same(ty, tys[0]) for ty in tys):
+                    fail(self.w(e), "the elements of the array literal have different / unknown types")
+                return k("[" + ", ".join(t for t, _ in a) + "]", T("list", tys[0]), en)
+            return self.args(e.items, env, frame, got)
+        return Eval2Gen.cg(self, e, env, frame, k)
+
+    def call_day(self, e, key, recv_t, extmap, args, en, frame, k):
+        """a call of a translated function of this section; `extmap`: its named parameters -> the caller's"""
+        w, sig = self.w(e), self.dsigs[key]
+
+        def got(a, en2):
+            if len(a) != len(sig["params"]) or not all(seq_same(ty_, pt) for (_, ty_), pt in zip(a, sig["params"])):
+                fail(w, f"the arguments of `.{key[1]}()` are not ({', '.join(seq_show(x) for x in sig['params'])})")
+            if sig["fuel"]:
+                fail(w, "a callee with fuel")
+            named = "".join(f" ({n} := {extmap[n]})" for n in sorted(sig["externs"]))
+            v = self.fresh()
+            self.effects += 1
+            return [f"bnd ({key[0]}.{key[1]}{named} {atom(recv_t)}" + "".join(" " + atom(t_) for t_, _ in a) + f") fun {v} =>"] + k(v, sig["ret"], en2)
+        return self.args(args, en, frame, got)
+
+    def on_more(self, e, t, ty0, en, frame, k):
+        name, k0 = e.name, ty0[0] if ty0 else None
+        if k0 == "list" and ty0[1] is not None and ty0[1][0] in E2_ABS and ty0[1][0] != "aelem" and ("Slice", name) in self.dsigs:
+            # a `DateFilter` method on a `Vec<X>` field: the translated slice impl at `T := X`
+            sig = self.dsigs[("Slice", name)]
+            lx, _, nx = E2_ABS[ty0[1][0]]
+            extmap = {}
+            for n, lt in sig["externs"].items():
+                if not n.startswith("ext_elem_"):
+                    fail(self.w(e), f"the slice impl has the parameter {n}")
+                mine = f"ext_{nx}_{n[len('ext_elem_'):]}"
+                extmap[n] = self.ext(mine, re.sub(r"\bT\b", lx, lt))
+            return self.call_day(e, ("Slice", name), t, extmap, e.args, en, frame, k)
+        if k0 == "est2" and (ty0[1], name) in self.dsigs:
+            sig = self.dsigs[(ty0[1], name)]
+            return self.call_day(e, (ty0[1], name), t, {n: self.ext(n, lt) for n, lt in sig["externs"].items()}, e.args, en, frame, k)
+        return None
+
+
+def eval2_day_section(toks, raw):
+    toks(F_DF), toks(F_DAY)
+    tk = strip_attrs(raw(F_DF))
+    uses = file_uses(tk)
+    for imp in [("chrono", "NaiveDate"), ("crate", "Context"), ("crate::localization", "Localize"), ("crate::opening_hours", "DATE_END")]:
+        if imp not in uses:
+            fail(F_DF, f"`use {imp[0]}::{imp[1]};` not found: the name `{imp[1]}` is read as that item")
+    texts = [x.text for x in tk]
+    want = ["use", "opening_hours_syntax", "::", "rules", "::", "day", "::", "{", "self", "as", "ds"]
+    if not any(texts[i : i + len(want)] == want for i in range(len(texts))):
+        fail(F_DF, "`use opening_hours_syntax::rules::day::{self as ds, ..}` not found: `ds::DaySelector` is read as the struct of rules/day.rs")
+    local_consts = {"DATE_END": True, "Schedule derives": set(), "Schedule::new": False}
+    dtk = strip_attrs(raw(F_DAY))
+    structs = {"DaySelector"}
+    fields = {}
+    sp = Eval2DayParser(toks(F_DAY), F_DAY, structs, uses=std_uses(toks(F_DAY)))
+    fields["DaySelector"], line = eval_struct(toks(F_DAY), F_DAY, "DaySelector", sp)
+    L = ["/-! ### [eval2 extension] opening-hours/src/filter/date_filter.rs (`DateFilter for [T]`, `DateFilter for DaySelector`) -/", "",
+         "namespace DayFilter", "", f"/-- `struct DaySelector` ({F_DAY}:{line}) -/", f"structure DaySelector ({E2_DAY_TPARAMS} : Type) where"]
+    L += [f"  {lname(fn)} : {seq_lty(ft)}" for fn, ft in fields["DaySelector"]] + [""]
+    dsigs = {}
+    targets = [(F_DAY, dtk, ["impl", "DaySelector"], "DaySelector", E2_DAYSEL, "{Yr Md Wk Wd : Type}", "is_empty"),
+               (F_DF, tk, E2_SLICE_HEADER, "Slice", T("list", E2_ELEM), E2_SLICE_BINDER, "filter"),
+               (F_DF, tk, E2_SLICE_HEADER, "Slice", T("list", E2_ELEM), E2_SLICE_BINDER, "next_change_hint"),
+               (F_DF, tk, E2_DAY_HEADER, "DaySelector", E2_DAYSEL, E2_DAY_BINDER, "filter"),
+               (F_DF, tk, E2_DAY_HEADER, "DaySelector", E2_DAYSEL, E2_DAY_BINDER, "next_change_hint")]
+    for rel, ftk, header, impl_ty, self_t, binder, rname in targets:
+        where = find_impl_fns(ftk, rel, impl_ty, None, [rname], header=header)
+        p = Eval2DayParser(ftk, rel, structs, uses=std_uses(ftk))
+        p.self_t, p.item_t = self_t, None
+        p.i = where[rname]
+        node = p.seq_fn()
+        g = Eval2DayGen(binder, dsigs, rel, impl_ty, node, self_t, fields, {}, file_uses(ftk), {}, {}, local_consts)
+        L += g.gen() + [""]
+        dsigs[(impl_ty, rname)] = dict(params=[pt for _, pt, _ in node.params], ret=node.ret, externs=dict(g.externs), fuel=g.fuel)
+    L += ["end DayFilter", ""]
+    return L
+
 
 
 # [tz extension] fifth increment: opening-hours/src/localization/localize.rs (DESIGN §8.9, notes/RS2LEAN5-tz.md).
